@@ -30,7 +30,7 @@ PutT(T, q, n) == [ x \in DOMAIN T \cup {q} |-> IF x = q THEN n ELSE T[x] ]
 \* a rule whose sources have been edited has new content everywhere
 CurOf(it, touched) ==
     IF it.id \notin touched THEN it
-    ELSE [it EXCEPT !.st = [k \in 1..Len(it.st) |-> IF it.st[k].t = "file" THEN [it.st[k] EXCEPT !.c = @ \o "#1"] ELSE it.st[k]]]
+    ELSE [it EXCEPT !.st = [k \in 1..Len(it.st) |-> IF it.st[k].t = "file" \/ (it.st[k].t = "link" /\ it.st[k].r = "file") THEN [it.st[k] EXCEPT !.c = @ \o "#1"] ELSE it.st[k]]]
 
 RECURSIVE SetSeq(_)
 SetSeq(S) == IF S = {} THEN <<>> ELSE LET x == CHOOSE x \in S : TRUE IN <<x>> \o SetSeq(S \ {x})
